@@ -290,6 +290,9 @@ def library_input(cfg, values):
         kwargs["atol"] = float(cfg["atol"])
     if cfg.get("mask") is not None:
         md = {int(b): np.array(m, dtype=bool) for b, m in cfg["mask"].items()}
+        if cfg.get("repr") != "sympy":
+            # 0/1 masks are accepted in any integer dtype: the dtype is a deterministic function of the configuration
+            md = {b: m.astype((bool, int, np.int8, np.uint8)[(int(m.sum()) + b + len(m)) % 4]) for b, m in md.items()}
         if cfg.get("bare"):
             kwargs["fully_diagonalize"] = md[0]
         else:
